@@ -253,6 +253,8 @@ class MuEngine(Engine):
         # mutex pointer, e.g. an extracted wake loop): it always travels into the callee and back
         if isinstance(k, tuple) and len(k) == 3 and k[0] == 'flag' and k[1] == 'owes_desig':
             return False
+        if k == ('flag', 'woke_waiter'):
+            return False
         return Engine._ghost_framed(self, k, bases)
 
     def atomic_load_other(self, st, f, inst, p):
@@ -272,9 +274,14 @@ class MuEngine(Engine):
         if callee == 'nsync_mu_semaphore_v':
             for k in [k for k in st.ghost if isinstance(k, tuple) and k[:2] == ('flag', 'owes_desig')]:
                 del st.ghost[k]
+            if (self.entry_name or '').startswith(('nsync_mu_unlock', 'nsync_mu_runlock')):
+                st.ghost[('flag', 'woke_waiter')] = 1      # C13.R2: from here on a woken waiter may run, acquire, release and free the mutex
         return None
 
     def note_access(self, st, inst, p, kind):
+        if isinstance(p, Ptr) and p.base == MU.base and st.ghost.get(('flag', 'woke_waiter')):
+            self.record(Record('access_after_wake', inst, st, ptr=p, access=kind, entry=self.entry_name),
+                        ('aaw', inst.fn.name, inst.id, st.stack()))
         if isinstance(p, Ptr):
             for k in st.ghost:
                 if isinstance(k, tuple) and k[:2] == ('flag', 'released') and k[2].base == p.base and p.path[:len(k[2].path)] == k[2].path:
